@@ -115,7 +115,14 @@ func (m *metadataProviderFile) Store(cs *model.ClusterStatus, expectedVersion Ve
 		return "", err
 	}
 
-	if err := os.WriteFile(m.path, newContent, 0600); err != nil {
+	// Write to a temporary file first and then atomically replace the previous content: a crash in the
+	// middle of the write must not leave a truncated file, which would be read back as "no status" and
+	// make a restarted coordinator start again from scratch (terms and shard ids already handed out)
+	tmpPath := m.path + ".tmp"
+	if err := os.WriteFile(tmpPath, newContent, 0600); err != nil {
+		return NotExists, err
+	}
+	if err := os.Rename(tmpPath, m.path); err != nil {
 		return NotExists, err
 	}
 
